@@ -777,10 +777,39 @@ class DataStore(Mapping):
         return hash_fast(
             np.array(
                 [
-                    hash(v)
+                    _hash_member(v)
                     for v in self.data.values()
                     if v is not None and (not hasattr(v, "__len__") or len(v) > 0)
                 ],
                 dtype=np.int64,
             ).tobytes()
         )
+
+
+def _hash_member(value) -> int:
+    """
+    Hash one value stored in a DataStore to an integer
+    that fits in a signed 64 bit integer.
+
+    Python's builtin `hash` of a number is the number itself
+    modulo a prime with `-1` reserved as an error code, so that
+    `hash(-1.0) == hash(-2.0) == -2`: a scalar parameter changed
+    between those values would not change the hash of the store.
+    Numbers are therefore hashed through their bytes.
+
+    Parameters
+    ------------
+    value : any
+      A hashable object, usually a TrackedArray.
+
+    Returns
+    ------------
+    hashed : int
+      Hash of the value in the range of `np.int64`
+    """
+    if isinstance(value, (bool, np.bool_, int, np.integer)):
+        return hash(hash_fast(str(int(value)).encode("utf-8")))
+    elif isinstance(value, (float, np.floating)):
+        return hash(hash_fast(np.float64(value).tobytes()))
+    # arrays and every other hashable object
+    return hash(value)
